@@ -5,15 +5,30 @@ package fmt5
 
 import (
 	"math/rand"
+	"sync"
 
 	"github.com/tucats/ego/internal/verifh/gen"
+	"github.com/tucats/ego/internal/verifh/vh"
 )
+
+var (
+	langgenAvoidOnce sync.Once
+	langgenAvoidSet  map[string]bool
+)
+
+func langgenAvoid() map[string]bool {
+	langgenAvoidOnce.Do(func() { langgenAvoidSet = gen.KnownAvoid(vh.KnownKeys("C01")) })
+
+	return langgenAvoidSet
+}
 
 func init() {
 	extraSources = append(extraSources, func(rng *rand.Rand) (string, []string, bool) {
 		// comments in every position the generator can name on half of the programs; the
 		// others get all their comments from this package's decorator
-		p := gen.New(rng, gen.Options{EgoOnly: true, Comments: rng.Intn(2) == 0, MaxStmts: 10 + rng.Intn(30)})
+		// constructs named by C01's known findings (e.g. break/continue inside a default:
+		// clause, which loops forever) are kept out, as the generator's author advises
+		p := gen.New(rng, gen.Options{EgoOnly: true, Comments: rng.Intn(2) == 0, MaxStmts: 10 + rng.Intn(30), Avoid: langgenAvoid()})
 		if p.Ego == "" {
 			return "", nil, false
 		}
